@@ -3,10 +3,13 @@
    thread in any order (C36/Model.v): callbacks (first and later ones, overlapping), the steps of
    the zombie sweep, thread exits (which need no GIL and fall anywhere), interpreter finalization.
    Partial: CPython's PyGILState / PyThreadState internals appear only through counter, dict and
-   deletion; allocation failures are not modelled. *)
+   deletion; allocation failures are not modelled.
+   Tie: Model.step_fn consults the regenerated facts of C36/Gen.v (gen_gil_ensure_incr_unlocked/_locked,
+   gen_gil_release_plain, gen_register_sweeps_first/_sets_local/_incr): every theorem below about `reach`
+   is about the model instantiated with what the current source does on those lines. *)
 From Coq Require Import Arith List Bool.
 Import ListNotations.
-From Cffi Require Import C36.Model C36.Gen C36.Proofs C36.Proofs2.
+From Cffi Require Import C36.Model C36.Gen C36.Proofs C36.Proofs2 C36.Proofs3 C36.Proofs4 C36.Proofs5.
 
 (* none of the code's Py_FatalError conditions fires, no callback runs on a destroyed thread state,
    no Clear/Delete is applied to a destroyed one, the zombie list never links a freed canary *)
@@ -30,6 +33,14 @@ Theorem C36_persistent : forall s e s' t ts, reach s -> step s e s' ->
   gts s t = Some ts -> thr s' t = Alive -> finalized s' = false -> gts s' t = Some ts.
 Proof. exact persistent. Qed.
 Print Assumptions C36_persistent.
+
+(* ... over whole executions (any number of callbacks of any threads, sweeps, exits of other threads in
+   between): a thread that is alive at the end, interpreter not finalized, still has the thread state it had
+   at the beginning *)
+Theorem C36_persistent_trace : forall s es s' t ts, reach s -> steps s es s' ->
+  gts s t = Some ts -> thr s' t = Alive -> finalized s' = false -> gts s' t = Some ts.
+Proof. exact persistent_trace. Qed.
+Print Assumptions C36_persistent_trace.
 
 (* the counter accounts for every unreturned entry: the keep-alive reference of
    thread_canary_register, the outer callback, every callback entered with the GIL already held
@@ -85,7 +96,9 @@ Theorem C36_zombies_distinct_threads : forall s c1 c2 ts1 ts2 o k1 k2, reach s -
 Proof. exact zombies_distinct_threads. Qed.
 Print Assumptions C36_zombies_distinct_threads.
 
-(* the next thread_canary_register of ANY thread (a first callback run to completion) empties it *)
+(* an UNINTERRUPTED thread_canary_register of any thread (the macro event: a first callback run to
+   completion with no exit in between) empties it; see C36_registration_total for definedness and
+   C36_sweep_frees_initial_zombies for the interleaved form *)
 Theorem C36_registration_empties : forall s t s', gts s t = None -> mstep s (MCb t) = Some s' ->
   zombies s' = [] /\ reg s' = None.
 Proof. exact registration_empties. Qed.
@@ -106,6 +119,7 @@ Print Assumptions C36_swept_means_destroyed.
    rev l, unlinked canaries have NULL fields) implements the sequence operations of the model *)
 Theorem C36_ring_empty : ring heap0 [].
 Proof. exact ring_empty. Qed.
+Print Assumptions C36_ring_empty.
 Theorem C36_make_zombie_appends : forall h l c, ring h l -> ~ In c (0 :: l) ->
   exists e' h', exec_p gen_make_zombie (env0 c) h = Some (e', h') /\ ring h' (l ++ [c]).
 Proof. exact make_zombie_appends. Qed.
@@ -122,16 +136,115 @@ Print Assumptions C36_ring_head.
 Theorem C36_ring_linked_iff : forall h l c, ring h l -> c <> 0 -> (hnext h c <> None <-> In c l).
 Proof. exact ring_linked_iff. Qed.
 Print Assumptions C36_ring_linked_iff.
+(* the guard is consumed by C36_shutdown_twice_fatal below (run_x passes it to the interpreter) *)
 Theorem C36_make_zombie_guarded : gen_make_zombie_guarded = true.
 Proof. reflexivity. Qed.
+Print Assumptions C36_make_zombie_guarded.
+
+(* ---- the locked regions of cffi_thread_shutdown / thread_canary_dealloc / thread_canary_free_zombies,
+   regenerated as programs (C36/Gen.v, language and interpreter in C36/Ptr.v; run_x runs them with the
+   regenerated ring code and guard).  On a heap whose zombie_next/zombie_prev form `ring (rp h) l` they
+   perform exactly the list operations of Model.do_exit / Model.dealloc / step EvSweepPop on `zombies`. *)
+(* thread exit with an unlinked canary: appended at the END, canary->tls cleared, nothing else written *)
+Theorem C36_shutdown_links : forall (h : xheap) l u c,
+  ring (rp h) l -> tloc h u = Some c -> ~ In c (0 :: l) ->
+  exists e' r', run_x gen_shutdown_locked (xenv_tls u) h
+                = Some (e', mkX r' (upd (ctls h) c None) (ctst h) (tloc h)) /\ ring r' (l ++ [c]).
+Proof. exact shutdown_links. Qed.
+Print Assumptions C36_shutdown_links.
+(* thread exit without canary (never called back / canary deallocated, C36_drop_clears_backpointer): no write *)
+Theorem C36_shutdown_nothing : forall (h : xheap) u,
+  tloc h u = None -> exists e', run_x gen_shutdown_locked (xenv_tls u) h = Some (e', h).
+Proof. exact shutdown_nothing. Qed.
+Print Assumptions C36_shutdown_nothing.
+(* a canary that is already linked is never linked twice: the Py_FatalError guard (None = fatal) *)
+Theorem C36_shutdown_twice_fatal : forall (h : xheap) l u c,
+  ring (rp h) l -> tloc h u = Some c -> In c l -> run_x gen_shutdown_locked (xenv_tls u) h = None.
+Proof. exact shutdown_twice_fatal. Qed.
+Print Assumptions C36_shutdown_twice_fatal.
+(* dealloc: unlinked iff it was linked (`remove` is the identity otherwise); its thread's tls forgets it *)
+Theorem C36_dealloc_unlinks : forall (h : xheap) l c,
+  ring (rp h) l -> c <> 0 ->
+  exists e' r', run_x gen_dealloc_locked (xenv_ob c) h
+                = Some (e', mkX r' (ctls h) (ctst h)
+                                (match ctls h c with Some u => upd (tloc h) u None | None => tloc h end))
+                /\ ring r' (remove Nat.eq_dec c l).
+Proof. exact dealloc_unlinks. Qed.
+Print Assumptions C36_dealloc_unlinks.
+(* the sweep's locked region: empty list -> tstate stays NULL (loop ends), no write; otherwise the FIRST
+   zombie is popped and tstate is its ->tstate (non-NULL: no fatal) *)
+Theorem C36_sweep_pops : forall (h : xheap) l,
+  ring (rp h) l -> (forall c, In c l -> ctst h c <> None) ->
+  exists e' h', run_x gen_sweep_locked xenv_none h = Some (e', h') /\
+    ctls h' = ctls h /\ ctst h' = ctst h /\ tloc h' = tloc h /\
+    match l with
+    | [] => e' XTstate = None /\ rp h' = rp h
+    | c :: rest => e' XOb = Some c /\ e' XTstate = ctst h c /\ ring (rp h') rest
+    end.
+Proof. exact sweep_pops. Qed.
+Print Assumptions C36_sweep_pops.
+(* NOT proved (C36_heap_refines): a simulation `reach s -> exists h, ring (rp h) (map S (zombies s)) /\ ...`
+   composing the five theorems above with every step of the model; they are its per-event obligations. *)
+
+(* ---- progress of the sweep *)
+(* a first callback (registration run without interruption) is DEFINED in every reachable state where the
+   thread may start one — the fuel of Model.sweep_all always suffices — ends without fatal error, with the
+   zombie list empty *)
+Theorem C36_registration_total : forall s t, reach s -> finalized s = false -> thr s t = Alive ->
+  gts s t = None -> reg s = None -> incb s t = false ->
+  exists s', mstep s (MCb t) = Some s' /\ fatal s' = false /\ zombies s' = [] /\ reg s' = None.
+Proof. exact registration_total. Qed.
+Print Assumptions C36_registration_total.
+
+(* composition through the runner: a completed (uninterrupted) registration has destroyed the thread state
+   of EVERY thread that had exited before it (or that state had lost its canary while its thread lived) *)
+Theorem C36_registration_destroys : forall s t s' u ts, reach s -> gts s t = None ->
+  mstep s (MCb t) = Some s' -> thr s u = Exited -> gts s u = Some ts ->
+  tss s' ts = TsDeleted \/ dropped s' ts = true.
+Proof. exact registration_destroys. Qed.
+Print Assumptions C36_registration_destroys.
+
+(* fine-grained, any interleaving (exits of other threads between any two sweep steps, overlapping
+   callbacks): every canary queued when a registration starts is freed once that sweep loop has ended
+   (phase MakeCanary, or registration complete).  Canaries appended by exits during the sweep are either
+   swept too or — if the loop had already seen the list empty — stay for the next registration
+   (C36_example_residual): that is the honest form of "the next registration empties the list". *)
+Theorem C36_sweep_frees_initial_zombies : forall s0 t es s1 c,
+  reach s0 -> reg s0 = Some (t, Registering) -> steps s0 es s1 -> In c (zombies s0) ->
+  (reg s1 = None \/ exists t', reg s1 = Some (t', MakeCanary)) ->
+  cans s1 c = CFreed.
+Proof. exact sweep_frees_initial_zombies. Qed.
+Print Assumptions C36_sweep_frees_initial_zombies.
+
+(* non-vacuity: thread 0 exits, thread 2 registers; thread 1 exits between the pop and the clear; both swept *)
+Definition ex_prefix : list event :=
+  [EvCb 0; EvSweepPop; EvMakeCanary; EvCbEnd 0; EvCb 1; EvSweepPop; EvMakeCanary; EvCbEnd 1; EvExit 0; EvCb 2].
+Example C36_example_interleaved_sweep :
+  match frun init (ex_prefix ++ [EvSweepPop; EvExit 1; EvSweepClear; EvSweepPop; EvSweepClear; EvSweepPop; EvMakeCanary]) with
+  | Some s => (cans s 0, cans s 1, zombies s, reg s, fatal s)
+  | None => (CFree, CFree, [], None, true)
+  end = (CFreed, CFreed, [], None, false).
+Proof. vm_compute. reflexivity. Qed.
+(* the residual: an exit after the loop saw the list empty stays queued when the registration ends *)
+Example C36_example_residual :
+  match frun init (ex_prefix ++ [EvSweepPop; EvSweepClear; EvSweepPop; EvExit 1; EvMakeCanary]) with
+  | Some s => (cans s 0, zombies s, reg s, fatal s)
+  | None => (CFree, [], None, true)
+  end = (CFreed, [1], None, false).
+Proof. vm_compute. reflexivity. Qed.
+Example C36_example_prefix_state :
+  match frun init ex_prefix with Some s => (zombies s, reg s) | None => ([], None) end = ([0], Some (2, Registering)).
+Proof. vm_compute. reflexivity. Qed.
 
 (* regenerated from gil_ensure / gil_release: with an existing thread state the counter is incremented
    exactly once on BOTH paths — the one that takes the GIL (model event EvCb, returns PyGILState_UNLOCKED)
    and the one entered with the GIL already held (EvCbNested, returns PyGILState_LOCKED) — and gil_release
-   is PyGILState_Release(oldstate), which decrements on both (EvCbEnd / EvCbNestedEnd).  The model's events
-   assume exactly this; an increment missing on one path makes the corresponding fact false. *)
+   is PyGILState_Release(oldstate), which decrements on both (EvCbEnd / EvCbNestedEnd).  Model.step_fn
+   CONSULTS these facts (bump / set_fatal) and the three facts about thread_canary_register: with one of them
+   false the invariant proof (C36/Proofs.v) fails, not only this lemma. *)
 Theorem C36_gen_gil_ensure_counts :
-  gen_gil_ensure_incr_unlocked = true /\ gen_gil_ensure_incr_locked = true /\ gen_gil_release_plain = true.
+  gen_gil_ensure_incr_unlocked = true /\ gen_gil_ensure_incr_locked = true /\ gen_gil_release_plain = true /\
+  gen_register_sweeps_first = true /\ gen_register_sets_local = true /\ gen_register_incr = true.
 Proof. repeat split; reflexivity. Qed.
 Print Assumptions C36_gen_gil_ensure_counts.
 
